@@ -8,6 +8,14 @@
 (* decides EXACTLY whether J is inside the quantifier (full row rank and   *)
 (* condition bound, Impartial!AdmitGram / AdmitUnit) and how many units    *)
 (* the instance is allowed (64 x its exact condition bound).               *)
+(* Episodes with k > 0 were run on the WIDE presentation of J (every column *)
+(* repeated 4^k times, scaled 2^-k: Impartial!Widen): the Gramian, hence   *)
+(* admissibility and condition bound, are those of J (Impartial!WideOK).   *)
+(* IMTL-G and Aligned-MTL reduce over the n columns only in the Gramian    *)
+(* and the row norms, which are exact for these integer matrices in        *)
+(* float64 (Impartial!Exact64, decided here per episode): same allowance.  *)
+(* ConFIG takes the pseudo-inverse of the inexact m x n unit-row matrix:   *)
+(* its allowance carries the worst-case factor n of an n-term sum.         *)
 (* Verdicts are total: accepted | skipped (outside the quantifier) |       *)
 (* REJECT with the failing clause.                                         *)
 (***************************************************************************)
@@ -16,15 +24,22 @@ EXTENDS Impartial, IOUtils, TLCExt
 Episodes == JsonDeserialize(IOEnv.TRACE_FILE)
 NEp      == Len(Episodes)
 
-VARIABLES ep, nAcc, nRej, nSkip, worstPct, stage
-tvars == <<fam, inst, ep, nAcc, nRej, nSkip, worstPct, stage>>
+VARIABLES ep, nAcc, nRej, nSkip, nWide, worstPct, stage
+tvars == <<fam, inst, ep, nAcc, nRej, nSkip, nWide, worstPct, stage>>
 
 E == Episodes[ep]
 
-TInit == fam = "trace" /\ inst = <<"none">> /\ ep = 1 /\ nAcc = 0 /\ nRej = 0 /\ nSkip = 0 /\ worstPct = 0 /\ stage = "run"
+TInit == fam = "trace" /\ inst = <<"none">> /\ ep = 1 /\ nAcc = 0 /\ nRej = 0 /\ nSkip = 0 /\ nWide = 0 /\ worstPct = 0 /\ stage = "run"
 
 Admissible(e) == LET G == Gram(e.J) IN IF e.agg = "ConFIG" THEN AdmitUnit(G) ELSE AdmitGram(G)
 Allowed(e)    == LET G == Gram(e.J) IN IF e.agg = "ConFIG" THEN AllowedUnitsU(G) ELSE AllowedUnits(G)
+
+\* number of columns of the matrix the aggregator was run on; the units of a ConFIG residual on a wide
+\* episode are n eps (x <= a n  <=>  CeilDiv(x, n) <= a for integers)
+Width(e)  == Len(e.J[1]) * Pow(4, e.k)
+WF(e)     == IF e.agg = "ConFIG" /\ e.k > 0 THEN Width(e) ELSE 1
+U(e, x)   == CeilDiv(x, WF(e))
+WideExact(e) == e.k > 0 => (e.k <= 11 /\ Exact64(e.J, e.k))
 
 Failing(e) ==
     LET o == e.obs  a == Allowed(e) IN
@@ -34,8 +49,8 @@ Failing(e) ==
           ELSE IF o.proj_units > a THEN "projections_onto_the_rows_differ" ELSE "none")
     ELSE IF e.agg = "ConFIG" THEN
          (IF ~o.pos THEN "cosine_not_positive"
-          ELSE IF o.cos_units > a THEN "cosines_not_proportional_to_preference"
-          ELSE IF o.len_units > a THEN "length_is_not_the_sum_of_projections" ELSE "none")
+          ELSE IF U(e, o.cos_units) > a THEN "cosines_not_proportional_to_preference"
+          ELSE IF U(e, o.len_units) > a THEN "length_is_not_the_sum_of_projections" ELSE "none")
     ELSE (IF o.orth_units > a THEN "rebalanced_rows_not_orthogonal_of_length_sigma_min"
           ELSE IF o.comb_units > a THEN "not_the_preference_weighted_combination" ELSE "none")
 
@@ -43,12 +58,14 @@ Failing(e) ==
 MaxI(a, b) == IF a > b THEN a ELSE b
 UsedPct(e) == LET o == e.obs  a == Allowed(e)
                   u == IF e.agg = "IMTLG" THEN MaxI(o.sum_units, o.proj_units)
-                       ELSE IF e.agg = "ConFIG" THEN MaxI(o.cos_units, o.len_units)
+                       ELSE IF e.agg = "ConFIG" THEN MaxI(U(e, o.cos_units), U(e, o.len_units))
                        ELSE MaxI(o.orth_units, o.comb_units)
               IN  (100 * u) \div a
 
 TStep ==
     /\ stage = "run" /\ ep <= NEp
+    /\ Assert(WideExact(E), <<"wide episode whose reductions are not exact", E.ep>>)
+    /\ nWide' = nWide + (IF E.k > 0 /\ Admissible(E) THEN 1 ELSE 0)
     /\ IF ~Admissible(E)
        THEN nSkip' = nSkip + 1 /\ UNCHANGED <<nAcc, nRej, worstPct>>
        ELSE LET f == Failing(E) IN
@@ -60,9 +77,10 @@ TStep ==
 
 TDone == /\ stage = "run" /\ ep = NEp + 1
          /\ PrintT(<<"SUMMARY", ToJson([episodes |-> NEp, accepted |-> nAcc, rejected |-> nRej,
-                                         skipped |-> nSkip, worst_percent_of_allowance |-> worstPct])>>)
+                                         skipped |-> nSkip, wide_admissible |-> nWide,
+                                         worst_percent_of_allowance |-> worstPct])>>)
          /\ stage' = "end"
-         /\ UNCHANGED <<fam, inst, ep, nAcc, nRej, nSkip, worstPct>>
+         /\ UNCHANGED <<fam, inst, ep, nAcc, nRej, nSkip, nWide, worstPct>>
 
 TNext == TStep \/ TDone
 TraceSpec == TInit /\ [][TNext]_tvars
